@@ -1,4 +1,5 @@
 //! The mutators themselves (child module of `opmutate`).
+use super::copy;
 use super::ctx;
 use super::*;
 
@@ -54,6 +55,8 @@ pub const MUTATORS: &[(&str, Rule)] = &[
     ("shared-var-undefined", ctx::shared_var_undefined),
     ("shared-var-type", ctx::shared_var_type),
     ("shared-var-unused", ctx::shared_var_unused),
+    ("merge-copy-conflict", copy::merge_copy_conflict),
+    ("var-list-position", copy::var_list_position),
     ("n-reorder-defs", n_reorder_defs),
     ("n-wrap-inline", n_wrap_inline),
     ("n-dup-selection", n_dup_selection),
@@ -65,6 +68,7 @@ pub const MUTATORS: &[(&str, Rule)] = &[
     ("n-clone-operation", ctx::n_clone_operation),
     ("n-shared-var-stricter", ctx::n_shared_var_stricter),
     ("n-apply-directive", ctx::n_apply_directive),
+    ("n-merge-copy", copy::n_merge_copy),
 ];
 
 /// Apply one mutator chosen by `c`; a mutator that finds no site is replaced by another random
